@@ -253,7 +253,7 @@ TABLES = {
 LEAN_KEYWORDS = {"at", "from", "fun", "end", "then", "else", "if", "do", "let", "have", "show", "match", "with", "in",
                  "open", "by", "for", "def", "theorem", "where", "instance", "structure", "class", "namespace",
                  "section", "variable", "universe", "import", "deriving", "mutual", "return", "Type", "Prop", "Sort",
-                 "some", "none", "pure", "max", "min", "id"}
+                 "some", "none", "pure", "max", "min", "id", "matches"}
 
 
 class V:
@@ -413,6 +413,11 @@ class Fn:
             return V("(Py.Val.str %s)" % v.term, VAL, v.binds, v.refs)
         if v.ty == "emptydict" and isinstance(ty, tuple) and ty[0] == "dict":
             return V("[]", ty)
+        if isinstance(ty, tuple) and ty[0] == "opt" and v.ty == NONE:
+            return V("none", ty)
+        if isinstance(ty, tuple) and ty[0] == "opt" and v.ty in (ty[1], INTLIT):      # seventh batch: a value where `None or a value` is expected
+            w = self.coerce(node, v, ty[1])
+            return V("(some %s)" % w.term, ty, w.binds, w.refs)
         if v.items is not None and isinstance(ty, tuple) and ty[0] == "tuple" and len(ty[1]) == len(v.items):
             items = [self.coerce(node, x, t) for x, t in zip(v.items, ty[1])]
             binds, refs = _join(*items)
@@ -538,6 +543,17 @@ class Fn:
             if key in ab:                       # an expression the translation takes as a parameter
                 nm, ty = ab[key]
                 return static_param(nm, ty)
+        ac = self.cfg.get("abstract_calls")
+        if ac and isinstance(node, ast.Call):
+            # seventh batch: `f(… $ …)` with ONE hole: a function-typed parameter of the translation applied to the translated hole
+            for pat, (nm, fty) in ac.items():
+                hole = _match_hole(ast.parse(pat.replace("$", "__hole__"), mode="eval").body, node)
+                if hole:
+                    a = self.ex(hole[0], env)
+                    if a.ty == OPAQUE:
+                        return V.opaque()
+                    a = self.coerce(node, a, fty[1])
+                    return V("(%s %s)" % (nm, a.term), fty[2], a.binds, a.refs | {nm})
         mc = self.cfg.get("method_calls")
         if mc and isinstance(node, ast.Call) and ast.unparse(node) in mc:
             # `obj.m()` where `m` is a translated method: its `self.attr` parameters are read from `obj.attr`
@@ -990,6 +1006,14 @@ class Fn:
             body = self.ex(node.elt, e2)
             if body.ty == OPAQUE or any(c.ty == OPAQUE for c in conds):
                 return V.opaque()
+            if body.binds and not conds and body.ty not in (INTLIT, DECLIT):
+                # seventh batch: `[e for a, b in xs]`, e may raise: the first exception ends the comprehension
+                inner = set(body.refs)
+                for _, _, r_ in body.binds:
+                    inner |= r_
+                inner -= set(names) | {b_[0] for b_ in body.binds}
+                r = self.rebind("(Py.listMapM? %s (fun %s => %s))" % (src.term, pat, self.close(body)), LIST(body.ty), inner | src.refs)
+                return V(r.term, LIST(body.ty), src.binds + r.binds, r.refs)
             if body.binds or any(c.binds for c in conds):
                 self.fail(node, "filtered comprehension whose test or element may raise")
             if body.ty in (INTLIT, DECLIT):
@@ -1044,6 +1068,27 @@ class Fn:
         """`{k(a, b): v(a, b) for a, b in d.items()}` over an insertion-ordered dict: a fold of `d[k] = v`"""
         if len(node.generators) != 1 or node.generators[0].ifs or node.generators[0].is_async:
             self.fail(node, "comprehension shape")
+        g = node.generators[0]
+        if isinstance(g.target, ast.Name) and isinstance(want, tuple) and want[0] == "dict":
+            # seventh batch: `{k(x): v(x) for x in xs}` over a list / set: a fold of `d[k] = v` in the order of the Lean list
+            # (for a python SET the iteration order is not modelled: only order-independent statements about the result are meaningful)
+            src = self.ex(g.iter, env)
+            if src.ty == OPAQUE:
+                return V.opaque()
+            if not (isinstance(src.ty, tuple) and src.ty[0] in ("list", "set")) or src.items is not None:
+                self.fail(node, "dict comprehension over %s" % (src.ty,))
+            nm = self.lname(g.target.id)
+            e2 = dict(env)
+            e2[g.target.id] = V(nm, src.ty[1], (), {nm})
+            k = self.coerce(node, self.ex(node.key, e2), want[1])
+            if isinstance(node.value, ast.List) and not node.value.elts and isinstance(want[2], tuple) and want[2][0] == "list":
+                v = V("([] : %s)" % lean_ty(want[2]), want[2])
+            else:
+                v = self.coerce(node, self.ex(node.value, e2), want[2])
+            if k.binds or v.binds:
+                self.fail(node, "dict comprehension over a list whose key or value may raise")
+            return V("(Py.dictCompList %s (fun %s => (%s, %s)))" % (src.term, nm, k.term, v.term), want, src.binds,
+                     ((set(k.refs) | set(v.refs)) - {nm}) | src.refs)
         g = node.generators[0]
         if not (isinstance(g.iter, ast.Call) and isinstance(g.iter.func, ast.Attribute) and g.iter.func.attr == "items" and not g.iter.args):
             self.fail(node, "dict comprehension over something that is not d.items()")
@@ -1321,6 +1366,8 @@ class Fn:
                 return V.opaque()
             if obj.ty == ("table", "decdict") and f.attr == "items" and not args:
                 return V("(Py.tableItems %s)" % obj.term, LIST(TUP(STR, NUM)))
+            if isinstance(obj.ty, tuple) and obj.ty[0] == "dict" and f.attr == "items" and not args:
+                return V(obj.term, LIST(TUP(obj.ty[1], obj.ty[2])), obj.binds, obj.refs)       # seventh batch: the association list itself
             if isinstance(obj.ty, tuple) and obj.ty[0] == "dict" and f.attr == "values" and not args:
                 return V("(Py.dictValues %s)" % obj.term, LIST(obj.ty[2]), obj.binds, obj.refs)
             if isinstance(obj.ty, tuple) and obj.ty[0] == "set" and f.attr == "isdisjoint" and len(args) == 1 and \
@@ -1730,7 +1777,7 @@ class Fn:
             x = s.targets[0].id
             if x in TABLES or x == "self":
                 self.fail(s, "assignment to %s" % x)
-            v = self.ex(s.value, env)
+            v = self.ex(s.value, env, self.cfg.get("locals", {}).get(x))
             if x in self.cfg.get("locals", {}) and v.ty != OPAQUE:
                 v = self.coerce(s, v, self.cfg["locals"][x])
             e2 = dict(env)
@@ -2197,6 +2244,11 @@ class Fn:
                             raise Unsupported("%s: %s: %d calls of %r with %d keywords %r in %s" %
                                               (self.path, self.cfg["py"], len(calls), fn_, len(vals), kwname, ast.unparse(val)))
                         val = vals[0]
+                    elif sel == "lambdabody":    # seventh batch: the body of a one-argument lambda; its argument must be declared in `inputs`
+                        if not (isinstance(val, ast.Lambda) and len(val.args.args) == 1 and not val.args.defaults and
+                                val.args.args[0].arg in (self.cfg.get("inputs") or {})):
+                            raise Unsupported("%s: %s: %s is not a lambda of one declared argument" % (self.path, self.cfg["py"], ast.unparse(val)))
+                        val = val.body
                     elif sel == "eltcallee":     # the name of the function a comprehension applies to its variable, as a string
                         if not (isinstance(val, ast.ListComp) and isinstance(val.elt, ast.Call) and len(val.elt.args) == 1 and
                                 isinstance(val.elt.args[0], ast.Name) and val.elt.args[0].id == ast.unparse(val.generators[0].target)
@@ -2214,6 +2266,12 @@ class Fn:
                     raise Unsupported("%s: %s: %d statements contain %r" % (self.path, self.cfg["py"], len(hits), text))
                 i, x = hits[0]
                 return out + stmts[:i + 1] + [ast.copy_location(ast.Return(value=ast.parse(var, mode="eval").body), x)]
+            elif kind == "return":               # seventh batch: the value the unique `return` statement of this block returns
+                hits = [(i, x) for i, x in enumerate(stmts) if isinstance(x, ast.Return)]
+                if len(hits) != 1 or hits[0][1].value is None:
+                    raise Unsupported("%s: %s: %d `return` statements in the selected block" % (self.path, self.cfg["py"], len(hits)))
+                i, x = hits[0]
+                return out + stmts[:i + 1]
             elif kind == "ifstmt":               # the value of expression `e` right after the unique `if` STATEMENT whose test contains `text`
                 text, _, var = text.partition(" then ")
                 hits = [(i, x) for i, x in enumerate(stmts) if isinstance(x, ast.If) and text in ast.unparse(x.test)]
@@ -2309,6 +2367,8 @@ class Fn:
             return "\n\n".join(self.default_defs + ["\n".join([doc, sig] + self.trace_emit(parts, 1))])
         for nm, ty in cfg.get("abstractions", {}).values() if not cfg.get("trace") else []:
             params.append((nm, ty))
+        for nm, ty in cfg.get("abstract_calls", {}).values():
+            params.append((nm, ty))
         for nm, ty in cfg.get("loopvars", {}).items():
             params.append((self.lname(nm), ty))
         mode = "partial" if self.partial else "total"
@@ -2355,6 +2415,37 @@ class Fn:
 
 class UnboundLocal(Exception):
     pass
+
+
+def _match_hole(pat, node):
+    """structural match of `node` against `pat`, in which the name `__hole__` stands for any ONE expression:
+    [the sub-node standing at the hole] (exactly one hole must be met), or None"""
+    if isinstance(pat, ast.Name) and pat.id == "__hole__":
+        return [node]
+    if type(pat) is not type(node):
+        return None
+    out = []
+    for field in pat._fields:
+        a, b = getattr(pat, field, None), getattr(node, field, None)
+        if isinstance(a, ast.AST):
+            r = _match_hole(a, b) if isinstance(b, ast.AST) else None
+            if r is None:
+                return None
+            out += r
+        elif isinstance(a, list):
+            if not isinstance(b, list) or len(a) != len(b):
+                return None
+            for x, y in zip(a, b):
+                if isinstance(x, ast.AST):
+                    r = _match_hole(x, y) if isinstance(y, ast.AST) else None
+                    if r is None:
+                        return None
+                    out += r
+                elif x != y:
+                    return None
+        elif a != b:
+            return None
+    return out if len(out) <= 1 else None
 
 
 class _Stop(ast.stmt):
@@ -2854,6 +2945,50 @@ FUNCTIONS += [
          doc=" (FRAGMENT: the deletion set of the empty-replacement branch, `to_delete |= set([idx for match in match_indices for idx in match])`)"),
 ]
 
+
+PRELUDE7 = r'''
+/-! seventh batch (the hints, the grouping key and the reported tuples of find_pattern_in_structure; remove_duplicates, atoms_by_type_dict) -/
+/-- `{k(x): v(x) for x in xs}` over a list (or a set given as the list of its members): `d[k] = v` element by element -/
+def dictCompList {α κ β} [DecidableEq κ] (xs : List α) (f : α → κ × β) : List (κ × β) :=
+  xs.foldl (fun acc x => dictInsert acc (f x).1 (f x).2) []
+
+'''
+assert PRELUDE.count("end Mofun.Generated.Py\n") == 1
+PRELUDE = PRELUDE.replace("end Mofun.Generated.Py\n", PRELUDE7 + "end Mofun.Generated.Py\n")
+
+_FIND = dict(file="mofun/mofun.py", py="find_pattern_in_structure", slice=True, decorators="any")
+
+FUNCTIONS += [
+    # ---- seventh batch: find_pattern_in_structure (hints, grouping key, reported tuples) and two helpers
+    dict(_FIND, lean="findGroupKey", partial=True,
+         fragment=[("assign", "grouped_tuples"), ("callkw", ("group_duplicates", "key")), ("lambdabody", None)], params=[],
+         inputs={"near_indices": LIST(NAT), "m": LIST(NAT)}, abstractions={"len(structure)": ("structure_len", NAT)}, ret=LIST(INT),
+         doc=" (FRAGMENT: the grouping key of one candidate, the body of the `key=lambda m: …` handed to group_duplicates: "
+             "`tuple(sorted([near_indices[i] % len(structure) for i in m]))`; `none` = IndexError / ZeroDivisionError)"),
+    dict(_FIND, lean="findMatchTuplesInUc", partial=True, fragment=[("assign", "match_index_tuples_in_uc")], params=[],
+         inputs={"near_indices": LIST(NAT), "good_match_index_tuples": LIST(LIST(NAT))},
+         abstractions={"len(structure)": ("structure_len", NAT)}, ret=LIST(LIST(INT)),
+         doc=" (FRAGMENT: the reported index tuples, every chosen candidate folded back into the unit cell, in pattern order; "
+             "`none` = IndexError / ZeroDivisionError)"),
+    dict(file="mofun/helpers.py", py="remove_duplicates", lean="removeDuplicatesFirst", slice=True, partial=True,
+         generic="{α κ} [DecidableEq κ]", fragment=[("if", "pick_random"), "orelse", ("return", None)],
+         params=[("match_indices", LIST(ELEM)), ("key", FUN(ELEM, KEY))], locals={"keyed_tuples": DICT(KEY, LIST(ELEM))},
+         ret=LIST(ELEM),
+         doc=" (FRAGMENT: the `else: # pick first` branch, after the grouping loop: the first member of every group, groups in "
+             "first-seen order; `random.choice` of the other branch is not translated; `none` = KeyError / IndexError, never raised, see the theorem)"),
+    dict(file="mofun/helpers.py", py="atoms_by_type_dict", lean="atomsByTypeDict", partial=True,
+         params=[("atom_types", LIST(STR))], locals={"atoms_by_type": DICT(STR, LIST(NAT))}, ret=DICT(STR, LIST(NAT)),
+         doc="; the dict is an association list — the ORDER of its keys follows the iteration order of a python set, which is not "
+             "modelled (here: first occurrence); `none` = KeyError (never raised, see the theorem)"),
+    dict(_FIND, lean="findAxisHints", fragment=[("ifstmt", "axisp1_idx is None and axisp2_idx is None then (axisp1_idx, axisp2_idx)")],
+         params=[("axisp1_idx", OPT(NAT)), ("axisp2_idx", OPT(NAT))],
+         abstractions={"np.unravel_index(np.argmax(p_ss, axis=None), p_ss.shape)": ("farthest_pair", TUP(NAT, NAT))},
+         abstract_calls={"np.argmax(p_ss[$, :])": ("farthest_from", FUN(OPT(NAT), NAT))},
+         ret=TUP(OPT(NAT), OPT(NAT)),
+         doc=" (FRAGMENT: the two axis hints after the `if … elif …` that fills in the missing ones; parameters: the hints, the "
+             "arg-max pair of the squared-distance table `np.unravel_index(np.argmax(p_ss, axis=None), p_ss.shape)`, and the "
+             "function `x ↦ np.argmax(p_ss[x, :])` — the arg-max itself is not translated)"),
+]
 
 def render(repo=None):
     repo = repo or core.REPO
